@@ -1,4 +1,5 @@
 import SJ.Proofs.Tables
+import SJ.Proofs.Bridge
 /-
 C02 — Accepted documents are exposed with exact structure, order and values.
 -/
@@ -22,5 +23,29 @@ theorem C02_word_layout :
     these move) -/
 theorem C02_kernel_immediates :
     Generated.aParseStringCmpCopy = [65535, 1114111, 117, 6, 21, 6, 55296, 12, 92, 117, 65535, 127, 2047] := by decide
+
+open SJ.Layout in
+/-- **Read-back is exact.** If the tape holds the located root values `vs` (the format of C17; `Tight`: no gap
+    between a key and its value, which no parse or edit produces), then walking it through the public iterator
+    API — `ForEach` over the roots, `Advance`/`AdvanceInto` into arrays, `NextElementBytes` through objects, the
+    typed accessors at the leaves — yields exactly those values: same nesting, elements and members in tape order,
+    duplicate keys kept, nothing dropped or re-parented; and that is the unique document the tape denotes. -/
+theorem C02_readback (pj : PJ) (vs : List LVal) (h : WalkLayout.OkRoots pj vs 0) (ht : ∀ v ∈ vs, WalkLayout.Tight v) :
+    ∃ ds, owalk pj = .ok ds ∧ decodeTapeD pj = some ds ∧ WF pj (vs.map erase) ∧ ds = (vs.map erase).map DecodeSound.toOVal :=
+  Bridge.owalk_eq_decode pj vs h ht
+
+open SJ.Layout in
+/-- a tape denotes at most one document -/
+theorem C02_unique (pj : PJ) (d d' : List JVal) (h : WF pj d) (h' : WF pj d') : d = d' := DecodeSound.wf_unique pj d d' h h'
+
+open SJ.Layout in
+/-- Arrays element by element: `Advance` from anywhere before an element (gaps included) lands on that element
+    with its tag, and leaves the iterator positioned for the rest. -/
+theorem C02_advance_elem (pj : PJ) (i : Iter) (v : LVal) (vs : LVals) (lo hi : Nat)
+    (h : OkElems pj (.cons v vs) lo hi) (hhi : hi ≤ i.lim) (ha : 0 ≤ i.addNext) (hlo : (i.off : Int) + i.addNext = lo) :
+    ∃ i', Iter.advance pj i = .ok (i', tagToType (WalkLayout.tagOfL v)) ∧ i'.lim = i.lim ∧ i'.off = v.pos + 1 ∧
+      (∃ w, word pj v.pos = some w ∧ i'.t = tagOf w ∧ i'.cur = payloadOf w ∧ tagOf w = WalkLayout.tagOfL v) ∧
+      0 ≤ i'.addNext ∧ (i'.off : Int) + i'.addNext = v.fin ∧ OkElems pj vs v.fin hi :=
+  WalkLayout.advance_elem pj i v vs lo hi h hhi ha hlo
 
 end SJ.Properties.C02
